@@ -82,6 +82,11 @@ def generate(rng, tier, i):
                dp=rng.choice([0, 0, 1]), pf=pf, ps=ps, max_cmdt=rng.choice(gen.WINDOWS))
     scn['kernel'] = gen.draw_kernel(rng)
     scn['latency'] = {'kind': 'const', 'ns': rng.choice([1000, 100_000, 1_000_000, 5_000_000])}
+    if role == 'orig' and pol['reply_ms'] == (0, 0) and rng.random() < 0.5:
+        # reply latency 0 taken literally: a zero-latency bus and a peer that answers inside its frame handler, so that its CTS /
+        # acknowledgement is processed before the stack's own send call has returned
+        scn['latency'] = {'kind': 'zero'}
+        scn['peer']['policy']['sync_reply'] = True
     if rng.random() < 0.15:
         scn['stacks'][0]['rts_cts_interval'] = rng.choice([0.001, 0.01])
     return scn
